@@ -106,7 +106,7 @@ Record tl_eval_shape : Set := mk_tl_eval {
   te_init_zero : bool;         (* ComplexType res = 0 *)
   te_forward : bool;           (* begin() .. end(), ++it *)
   te_op : acc_op;              (* res += *)
-  te_args : list nat           (* positions of the operator's own parameters handed to the term, in order *)
+  te_all_args : bool           (* the term is called with all the parameters of the operator, in order *)
 }.
 
 (** * 5. Values: sums over the parts, subtraction of the disconnected part
@@ -176,22 +176,67 @@ Arguments pe_nonres_args {K}. Arguments pe_res_args {K}. Arguments pe_combine {K
     for(index1 < <outerSize of M1>) for(index3 < <outerSize of M3>) {
        bra4(CX4, index1); ket4(O3, index3); list.clear();  while(W4) { BODY4 }
        if (!list.empty()) { [locals] bra2(O2, index3); ket2(O1, index1);  while(W2) { BODY2 } } }
-    BODY2 contains, as its WsBody 0, `[locals] for(p4 < list.size()) { [locals] INNER }`. Matrices are numbered
-    0 = O1, 1 = O2, 2 = O3, 3 = CX4; iterators are (matrix, outer variable) with outer variable 1 = index1, 3 = index3. *)
+    BODY2 contains, as its WsBody 0, `[locals] for(p4 < list.size()) { index4 = list[p4]; [locals] INNER }`.  Matrices are numbered
+    0 = O1, 1 = O2, 2 = O3, 3 = CX4; an iterator is (matrix, outer variable) with outer variable 1 = index1, 3 = index3.
+    In the two whiles ItA is the RowMajor (`ket`) iterator, ItB the ColMajor (`bra`) one. *)
 Record tp_nest : Set := mk_tp_nest {
-  tn_bound1 : nat;                           (* index1Max = <matrix>.outerSize() *)
-  tn_bound3 : nat;
-  tn_bra4 : nat * nat; tn_ket4 : nat * nat;  (* (matrix, outer variable) of the two iterators of the first while *)
-  tn_clear_first : bool;                     (* Index4List.clear() in front of the first while *)
+  tn_first1 : nat; tn_cmp1 : cmpop; tn_bound1 : nat;   (* for(index1 = FIRST; index1 CMP <matrix>.outerSize(); ++index1) *)
+  tn_first3 : nat; tn_cmp3 : cmpop; tn_bound3 : nat;
+  tn_bra4 : nat * nat; tn_ket4 : nat * nat;            (* the two iterators of the first while *)
+  tn_clear_first : bool;                               (* Index4List.clear() in front of the first while *)
   tn_while4 : icond; tn_body4 : list wstmt;
-  tn_guard_nonempty : bool;                  (* if (!Index4List.empty()) around the second part *)
+  tn_guard_nonempty : bool;                            (* if (!Index4List.empty()) around the second part *)
   tn_bra2 : nat * nat; tn_ket2 : nat * nat;
   tn_while2 : icond; tn_body2 : list wstmt;
-  tn_inner_all : bool                        (* for (p4 = 0; p4 < Index4List.size(); ++p4) *)
+  tn_inner_first : nat; tn_inner_cmp : cmpop           (* for (p4 = FIRST; p4 CMP Index4List.size(); ++p4) *)
 }.
+
+(** what is done for one quadruple (index1, index2, index3, index4): all K-valued locals of the nest in declaration order
+    (their initialisers are pure reads), then the statements of the innermost loop body *)
+Section TPBody.
+Variable K : Type.
+Record tenv : Type := mk_tenv {
+  te_i1 : nat; te_i3 : nat;                   (* index1, index3 *)
+  te_idxA : nat; te_idxB : nat;               (* the locals read from the ket / bra iterator of the second while (index2) *)
+  te_i4 : nat;                                (* Index4List[p4] *)
+  te_E : nat -> nat -> K;                     (* Hpart<k>.getEigenValue(i) *)
+  te_W : nat -> nat -> K;                     (* DMpart<k>.getWeight(i) *)
+  te_va : K; te_vb : K;                       (* <ket iterator>.value(), <bra iterator>.value() *)
+  te_coeff : nat -> nat -> nat -> K;          (* <matrix m>.coeff(..) as (m, outer index, inner index) *)
+  te_sign : K;                                (* Permutation.sign *)
+  te_beta : K;                                (* DMpart1.beta *)
+  te_tol : K                                  (* CoefficientTolerance *)
+}.
+Definition pexp : Type := tenv -> (nat -> K) -> K.
+Inductive pstmt : Type :=
+| PsLet (f : pexp)
+| PsIf (c : tenv -> (nat -> K) -> bool) (then_ else_ : list pstmt)
+| PsMulAssign (n : nat) (f : pexp)           (* local n *= f *)
+| PsAddMultiterm (args : list pexp).         (* addMultiterm(args) *)
+End TPBody.
+Arguments mk_tenv {K}. Arguments te_i1 {K}. Arguments te_i3 {K}. Arguments te_idxA {K}. Arguments te_idxB {K}. Arguments te_i4 {K}.
+Arguments te_E {K}. Arguments te_W {K}. Arguments te_va {K}. Arguments te_vb {K}. Arguments te_coeff {K}. Arguments te_sign {K}.
+Arguments te_beta {K}. Arguments te_tol {K}.
+Arguments PsLet {K}. Arguments PsIf {K}. Arguments PsMulAssign {K}. Arguments PsAddMultiterm {K}.
+
+(** the terms addMultiterm hands to the two term lists *)
+Inductive temit (K : Type) : Type :=
+| TeNonRes (coeff p1 p2 p3 : K) (isz4 : bool)
+| TeRes (rescoeff nonrescoeff p1 p2 p3 : K) (isz1z2 : bool).
+Arguments TeNonRes {K}. Arguments TeRes {K}.
 
 (** * 10. TwoParticleGF::compute(clear, freqs, comm): the order of the statements that matter *)
 Inductive bcast_root : Set := RootOwner (* job_map[p] *) | RootZero | RootOther.
+(** ComputeAndClearWrap::run:  p->compute();  if (fill_) { for (w = FIRST; w CMP freqs_->size(); ++w) ( *data_)[w] OP= ( *p)(get<0>, get<1>, get<2> of freqs[w]); }
+    if (clear_) p->clear(); *)
+Record wrap_run_shape : Set := mk_wrap_run {
+  wr_compute_first : bool;
+  wr_fill_guarded : bool;                    (* the loop stands under if (fill_) *)
+  wr_first : nat; wr_cmp : cmpop;            (* the loop runs over all frequencies *)
+  wr_op : acc_op;
+  wr_args : list nat;                        (* the tuple components handed to the part, in order *)
+  wr_clear_guarded_last : bool               (* if (clear_) p->clear(); as the last statement *)
+}.
 Record tpgf_compute_shape : Set := mk_tpgf_compute {
   tc_status_throw_first : bool;              (* if (Status < Prepared) throw ... before anything else but the declaration *)
   tc_computed_returns : bool;                (* if (Status >= Computed) return m_data; *)
